@@ -70,6 +70,15 @@ def run(ctx):
         b0 = bytes_of.get((code, 0, tuple(f))); b1 = bytes_of.get((code, 1, tuple(f)))
         if b0 is not None and b1 is not None and b0 != b1:
             ctx.report('transports-differ', 'FILE and C++-stream exports of %s differ' % G.NAMES[code], {'type': G.NAMES[code], 'fields': f[:200]})
+    # 1b. the same exports in a process whose global C++ locale groups digits and uses a decimal comma (an application that called
+    #     std::locale::global): the bytes are the same (the formats are locale-independent), and so are the imports below
+    sub = [i for i in range(len(il)) if meta[i][0] in (1, 2, 3, 4, 5, 6, 7, 8, 9, 10, 11, 12)][:: (1 if thorough else 3)]
+    lo = vlib.run_lines(exe, ['setlocale 1'] + [il[i] for i in sub] + ['setlocale 0'], timeout=1200)[1:-1]
+    for i, o in zip(sub, lo):
+        (code, tr, f, c) = meta[i]; ctx.count(('exp-locale', code, tr, tuple(f)))
+        if o.strip() != io[i].strip():
+            ctx.report('export-depends-on-locale', 'export of %s (transport %d) under a global C++ locale with digit grouping and a decimal comma differs from the export under the classic locale (first difference at byte %d): '
+                       'the text sections are not written in a locale-independent format' % (G.NAMES[code], tr, first_diff(o.split(), io[i].split())), {'type': G.NAMES[code], 'transport': tr, 'case': il[i][:5000], 'locale': 'setlocale 1 (numpunct: grouping 3, decimal comma)', 'impl': o[:2000], 'classic': io[i][:2000]})
     # 2. import of the exported bytes: vs model, vs the original, then re-export
     il2 = []; meta2 = []
     for (code, tr, f, c) in meta:
@@ -80,6 +89,13 @@ def run(ctx):
         if tr == 1:   # the same bytes through the C++-stream API over a stream buffer that refills piecewise (transport 2)
             il2.append('cimp %d 2 %s %d %s' % (code, ' '.join(map(str, c)), len(b), ' '.join(b))); meta2.append((code, 2, f, c, b))
     io2 = vlib.run_lines(exe, il2, timeout=1200)
+    sub2 = list(range(0, len(il2), 1 if thorough else 4))
+    lo2 = vlib.run_lines(exe, ['setlocale 1'] + [il2[i] for i in sub2] + ['setlocale 0'], timeout=1200)[1:-1]
+    for i, o in zip(sub2, lo2):
+        (code, tr, f, c, b) = meta2[i]; ctx.count(('imp-locale', code, tr, tuple(f)))
+        if o.strip() != io2[i].strip():
+            ctx.report('import-depends-on-locale', 'import of %s (transport %d) under a global C++ locale with digit grouping and a decimal comma gives a different object than under the classic locale' % (G.NAMES[code], tr),
+                       {'type': G.NAMES[code], 'transport': tr, 'case': il2[i][:5000], 'locale': 'setlocale 1', 'impl': o[:2000], 'classic': io2[i][:2000]})
     mo2 = vlib.run_model([re.sub(r'^cimp (\d+) 2 ', r'cimp \1 1 ', l) for l in il2], 'fast')
     re_l = []; re_meta = []
     for (code, tr, f, c, b), o, m in zip(meta2, io2, mo2):
